@@ -39,7 +39,7 @@ def check(ctx):
                     ctx.check(dict(pc[3]).get("granularity") == pat("self.granularity") and o.ctor[3][0][1] == pat("range(self.writes_ports)"), "C22.write-ports", o.site, f"AsyncMemoryBank.write_ports[{cn}]", found=tstr(pc) + " for " + tstr(o.ctor[3][0][1]),
                               required="one write port per write method with the configured granularity")
         if rports is None or wports is None:
-            raise AnalysisError("C22", comp.site, "AsyncMemoryBank: ports not found")
+            raise AnalysisError("C22", comp.site, "AsyncMemoryBank: ports not found", missing="AsyncMemoryBank: ports not found")
         # read[i] touches read_port[i] only
         ws = writers_of(ex, ("a", ("i", rports, IDX), "addr"))
         ok = len(ws) == 1 and enclosing_body(ex, ws[0].fact) is rd and ws[0].fact.lhs[1][2] == rd.binder and ws[0].rhs == ("a", ("arg", rd.bodyid), "addr")
